@@ -332,6 +332,7 @@ CHECKS = {
         "stages": [
             st("main", "rel", [400, 30000], [60, 500]),
             st("dbgassert", "relda", [60, 600], [40, 300], shards=8),
+            st("cli", "rel", [2, 30], [60, 300], needs_cli=True),
         ],
         "rule": "two thirds of the cases (function hook): random template sets (%F/%L/%R, optional %X?[i], %t, literal prefixes, repeated and "
                 "out-of-range indices) over 5-45 interleaved calls with random feature rows incl. short rows; ids returned by the real "
